@@ -1613,4 +1613,12 @@ theorem identity' {f : Fmt} (v : Valid f) (kw : Option PyVal) (dflt : PyVal) (hf
   unfold signBits
   rw [Nat.add_assoc]
 
+/-! ## regression: the flag handling before /repo commit 724e786 -/
+
+/-- `vectorize_with_mpmath.__init__` BEFORE the fix 724e786 (`... if flush_subnormals is UNSPECIFIED else ...`):
+kept only to state the regression witnesses of Props/C15. -/
+def initFlushPre724e786 (kw : Option PyVal) (dflt : PyVal) : PyVal :=
+  let fs := kw.getD .unspecified
+  if fs.isUnspecified then fs else dflt
+
 end FAVerif.Mpf
